@@ -66,7 +66,7 @@ func Load(repoDir string, patterns []string) (*Engine, error) {
 		if info.IsDir() && (info.Name() == ".git" || info.Name() == "node_modules") {
 			return filepath.SkipDir
 		}
-		if !info.IsDir() && info.Name() == "zz_verif_contracts.go" {
+		if !info.IsDir() && strings.HasPrefix(info.Name(), "zz_verif_contracts") && strings.HasSuffix(info.Name(), ".go") {
 			e.SpecFiles = append(e.SpecFiles, path)
 		}
 		return nil
@@ -337,8 +337,12 @@ func (vc *VC) allHeaps() []string {
 	return append(append([]string{}, HeapSorts...), vc.extraOrder...)
 }
 
-// axiomRelevant: an axiom is included when every spec function it mentions is
-// resolvable; axioms are global to the contract files.
+// axiomRelevant: an axiom of the function's own package is included when it
+// mentions no abstract spec function at all, or when at least one abstract
+// function it mentions is used (transitively through pure functions) by the
+// contract of the function under verification or by the contract of a function
+// it may call. Axioms about spec functions the proof cannot mention only cost
+// solver time (and can start matching loops).
 func (vc *VC) axiomRelevant(ax *Axiom) bool {
 	pkgOf := func(path string) string { return filepath.Dir(path) }
 	fn := vc.Fn
@@ -348,7 +352,145 @@ func (vc *VC) axiomRelevant(ax *Axiom) bool {
 	if fn.Pkg == nil {
 		return false
 	}
-	// include axioms from the contract file of the function's own package only
 	pos := vc.Eng.Prog.Fset.Position(fn.Pos())
-	return pkgOf(pos.Filename) == pkgOf(ax.File)
+	if pkgOf(pos.Filename) != pkgOf(ax.File) {
+		return false
+	}
+	if vc.usedSpecFuncs == nil {
+		vc.usedSpecFuncs = vc.computeUsedSpecFuncs()
+	}
+	mentionsAbstract := false
+	for _, id := range specIdents(ax.Text) {
+		if pf := vc.Eng.Spec.Pures[id]; pf != nil {
+			if pf.Abstract {
+				mentionsAbstract = true
+			}
+			if vc.usedSpecFuncs[id] {
+				return true
+			}
+		}
+	}
+	return !mentionsAbstract
+}
+
+func specIdents(text string) []string {
+	var out []string
+	i := 0
+	for i < len(text) {
+		c := text[i]
+		if c == '_' || (c >= 'a' && c <= 'z') || (c >= 'A' && c <= 'Z') {
+			j := i
+			for j < len(text) && (text[j] == '_' || (text[j] >= 'a' && text[j] <= 'z') || (text[j] >= 'A' && text[j] <= 'Z') || (text[j] >= '0' && text[j] <= '9')) {
+				j++
+			}
+			out = append(out, text[i:j])
+			i = j
+			continue
+		}
+		i++
+	}
+	return out
+}
+
+func specTexts(fs *FuncSpec) []string {
+	var out []string
+	add := func(cs []*Clause) {
+		for _, c := range cs {
+			out = append(out, c.Text)
+		}
+	}
+	add(fs.Requires)
+	add(fs.Ensures)
+	add(fs.Lets)
+	add(fs.Assigns)
+	for _, l := range fs.Loops {
+		add(l.Invariants)
+		add(l.Assigns)
+		if l.Decreases != nil {
+			out = append(out, l.Decreases.Text)
+		}
+	}
+	for _, a := range fs.Asserts {
+		out = append(out, a.C.Text)
+	}
+	for _, fe := range fs.Foreach {
+		out = append(out, fe.Template)
+	}
+	return out
+}
+
+func (vc *VC) computeUsedSpecFuncs() map[string]bool {
+	used := map[string]bool{}
+	var work []string
+	addText := func(t string) {
+		for _, id := range specIdents(t) {
+			if vc.Eng.Spec.Pures[id] != nil && !used[id] {
+				used[id] = true
+				work = append(work, id)
+			}
+		}
+	}
+	addSpec := func(fs *FuncSpec) {
+		if fs == nil {
+			return
+		}
+		for _, t := range specTexts(fs) {
+			addText(t)
+		}
+		if fs.Extends != "" {
+			if b := vc.Eng.Spec.Funcs[fs.Extends]; b != nil {
+				for _, t := range specTexts(b) {
+					addText(t)
+				}
+			}
+		}
+	}
+	addSpec(vc.Spec)
+	// contracts of possible callees (static callees, closures, interface methods by name)
+	seen := map[*ssa.Function]bool{}
+	var visit func(f *ssa.Function, depth int)
+	visit = func(f *ssa.Function, depth int) {
+		if f == nil || seen[f] || depth > 4 {
+			return
+		}
+		seen[f] = true
+		for _, af := range f.AnonFuncs {
+			visit(af, depth)
+		}
+		for _, b := range f.Blocks {
+			for _, ins := range b.Instrs {
+				ci, ok := ins.(ssa.CallInstruction)
+				if !ok {
+					continue
+				}
+				cc := ci.Common()
+				if cc.IsInvoke() {
+					suffix := "." + cc.Method.Name()
+					for n, fs := range vc.Eng.Spec.Funcs {
+						if strings.HasSuffix(strings.SplitN(n, "#", 2)[0], suffix) {
+							addSpec(fs)
+						}
+					}
+					continue
+				}
+				if callee := cc.StaticCallee(); callee != nil {
+					n := FuncName(callee)
+					if fs := vc.Eng.Spec.Funcs[n]; fs != nil {
+						addSpec(fs)
+					} else if callee.Blocks != nil {
+						visit(callee, depth+1) // may be inlined
+					}
+				}
+			}
+		}
+	}
+	visit(vc.Fn, 0)
+	for len(work) > 0 {
+		id := work[len(work)-1]
+		work = work[:len(work)-1]
+		if pf := vc.Eng.Spec.Pures[id]; pf != nil {
+			addText(pf.Text)
+		}
+	}
+	return used
 }
